@@ -109,6 +109,7 @@ func cmdRun(args []string) {
 	stopFirst := fs.Bool("stopfirst", false, "")
 	resetEvery := fs.Int("reset", 20, "reset the solver every N paths")
 	sigor := fs.String("sigoracle", "", "pre-built signature oracle binary")
+	extra := fs.String("extra", "", "extra overlay entries virt=real,virt=real")
 	fs.Parse(args)
 	oracleBin = *sigor
 	if pf := os.Getenv("SYMGO_PROF"); pf != "" {
@@ -123,6 +124,11 @@ func cmdRun(args []string) {
 	if err != nil {
 		fmt.Fprintln(os.Stderr, "spec:", err)
 		os.Exit(2)
+	}
+	for _, kv := range strings.Split(*extra, ",") {
+		if i := strings.Index(kv, "="); i > 0 {
+			spec.Overlay[kv[:i]] = kv[i+1:]
+		}
 	}
 	t0 := time.Now()
 	prog, pkgs, err := loadProgram(spec)
